@@ -397,6 +397,17 @@ def transform_sprog(rng, want):
     if want == "oncefirst":
         # the first compilation of a '.once' file contributes everything: same as without the '.once'
         g = r.choice([inc_ids[0], p.ids[0], p.ids[-1]])
+        seen = False
+        for fid in sorted(p.files):          # the file must be compiled exactly once: keep one '.include' of it
+            new = []
+            for st in p.files[fid]:
+                if st == ("inc", g):
+                    if seen:
+                        continue
+                    seen = True
+                new.append(st)
+            p.files[fid] = new
+        q = p.clone()
         p.files[g] = [("once",)] + p.files[g]
         return "once-first", p, q
     if want == "paste":
